@@ -44,7 +44,7 @@ ASSUMPTIONS = ['TIF-marked LIS files whose first record is exactly 276 bytes sha
 SHARDS = {'quick': 4, 'thorough': 16}
 REQUIRED_CLASSES = {'valid-RP66V1': 1, 'valid-LIS': 1, 'valid-LISt': 1, 'valid-LIStr': 1, 'valid-LAS1.2': 1, 'valid-LAS2.0': 1, 'valid-BIT': 1,
                     'valid-DAT': 1, 'arbitrary-truncation': 1, 'arbitrary-mutation': 1, 'arbitrary-splice': 1, 'arbitrary-random': 1, 'arbitrary-text-token': 1, 'arbitrary-digit-run': 1,
-                    'valid-DAT-first-row-beyond-4KiB': 1, 'valid-file>8KiB': 1, 'arbitrary-ebcdic': 1, 'valid-BIT-20-channels': 1, 'valid-LIS-over-100-even-records-then-odd': 1, 'valid-file-from-path': 1, 'valid-LIS-padded-records': 1, 'valid-LIS-of-one-physical-record': 1, 'valid-LIS-TIF-padded-by>=12': 1}
+                    'valid-DAT-first-row-beyond-4KiB': 1, 'valid-file>8KiB': 1, 'arbitrary-ebcdic': 1, 'valid-BIT-20-channels': 1, 'valid-BIT-first-pass-without-frames': 1, 'valid-LIS-over-100-even-records-then-odd': 1, 'valid-file-from-path': 1, 'valid-LIS-padded-records': 1, 'valid-LIS-of-one-physical-record': 1, 'valid-LIS-TIF-padded-by>=12': 1}
 
 
 class Timeout(Exception):
@@ -166,8 +166,11 @@ def valid_cases(draw):
     if fmt == 'LAS':
         return {'fmt': fmt, 'model': draw(GA.las_models(max_curves=5, max_frames=12, min_curves=2)), 'layout': draw(GA.layouts())}
     if fmt == 'BIT':
+        if draw(st.integers(0, 5)) == 0:   # log passes without any frame (the description block is followed by the end-of-pass mark)
+            return {'fmt': fmt, 'model': draw(GB.bit_models(max_passes=2, max_channels=6, max_frames=3, min_frames=0))}
         if draw(st.integers(0, 2)) == 0:   # up to the largest legal channel count (20 names fit the header block)
-            return {'fmt': fmt, 'model': draw(GB.bit_models(max_passes=1, max_channels=20, max_frames=6))}
+            # (the channels beyond the drawn ones are added at rendering time: Hypothesis silently drops examples that need too many draws)
+            return {'fmt': fmt, 'model': draw(GB.bit_models(max_passes=1, max_channels=4, max_frames=6)), 'to20': True}
         return {'fmt': fmt, 'model': draw(GB.bit_models(max_passes=2, max_channels=6, max_frames=30))}
     # 'extra_decls': declared channels that the header line does not use (legal), added at rendering time so that the
     # declarations + header + first row reach well beyond 4 KiB without a huge Hypothesis example
@@ -195,6 +198,16 @@ def render(case):
     if fmt == 'BIT':
         # the header block of a BIT file is 276 bytes (ReadBIT docstring): an 8 byte tail after the five range floats
         model = dict(case['model'], passes=[dict(p, tail=bytes(p['tail'][:8]).ljust(8)) for p in case['model']['passes']])
+        if case.get('to20'):
+            p0 = dict(model['passes'][0])
+            have = len(p0['channels'])
+            names = [nm for nm in ('C%02d ' % i for i in range(40)) if nm not in p0['channels']][:20 - have]
+            p0['channels'] = list(p0['channels']) + names
+            p0['data'] = [list(c) for c in p0['data']] + [list(p0['data'][i % have]) for i in range(20 - have)]
+            if p0.get('filler') is not None:
+                p0['filler'] = b''
+            model = dict(model, passes=[p0] + list(model['passes'][1:]))
+            case['model'] = model           # the classes below describe what was written
         return GB.encode_bit_file(model), 'BIT', None, True
     model = case['model']
     if case.get('extra_decls'):
@@ -243,10 +256,17 @@ def check_valid(case, cc):
     cc.cls('valid-LIS-of-one-physical-record', case['fmt'] == 'LIS' and len(case['model']['items']) == 1)
     cc.cls('valid-LIS-padded-records', case['fmt'] == 'LIS' and bool(case['model']['cfg'].get('pad')))
     cc.cls('valid-LIS-TIF-padded-by>=12', case['fmt'] == 'LIS' and (case['model']['cfg'].get('pad') or [''])[0] == 'min' and case['model']['cfg']['pad'][1] >= 64)
+    cc.cls('valid-BIT-first-pass-without-frames', exp == 'BIT' and not any(case['model']['passes'][0]['data'][0:1] and case['model']['passes'][0]['data'][0]))
     cc.cls('valid-BIT-20-channels', exp == 'BIT' and any(len(p['channels']) == 20 for p in case['model']['passes']))
     cc.cls('valid-DAT-first-row-beyond-4KiB', exp == 'DAT' and _dat_first_row_end(data) > 4096)
     cc.nt(nt)
-    late_pad = case['fmt'] == 'LIS' and bool((case['model'].get('many') or {}).get('pad2')) and case['model']['many']['n'] >= 100
+    late_pad = False
+    if case['fmt'] == 'LIS' and (case['model'].get('many') or {}).get('pad2'):
+        # the situation of the known finding: the first physical record of odd length (the first that is padded) is not among the first 100
+        _d, m_ = GL.build_lis_file(lis_with_many_records(case['model'], case['model']['many']))
+        lens = [pr[4] for prs in m_['phys']['prs'] for pr in prs]
+        first_odd = next((i for i, n_ in enumerate(lens) if n_ % 2), None)
+        late_pad = first_odd is not None and first_odd >= 100
     cc.cls('valid-LIS-first-padded-record-after-the-100th', late_pad)
     if res != exp and late_pad and not res and case['model']['cfg']['tif'] == 'none':
         # known form: the padding option is settled on the first 100 physical records (all of even length here: every option
